@@ -109,7 +109,7 @@ def at_scale_case(ctx, g, rng):
 
 
 def run_case(ctx, g, rng):
-    if g % 120 == 120 - 1:
+    if g % 127 == 127 - 1:
         return at_scale_case(ctx, g, rng)
     api, S = ctx.api, probe.S
     # inputs with a past: constructed, registered record by record, or grown through merges (DESIGN 11.4)
